@@ -12,6 +12,9 @@ pub enum AnyCheck {
     Prog(Check),
     Tape(crate::tape::TapeCheck),
     Svec(crate::svec::SvecCheck),
+    Cli(crate::cli::CliCheck),
+    Compile(crate::compile::CompileCheck),
+    Bytecode(crate::bcheck::BcCheck),
 }
 
 pub struct Checks {
@@ -25,6 +28,9 @@ impl AnyCheck {
             AnyCheck::Prog(c) => c.to_json(),
             AnyCheck::Tape(c) => c.to_json(),
             AnyCheck::Svec(c) => c.to_json(),
+            AnyCheck::Cli(c) => c.to_json(),
+            AnyCheck::Compile(c) => c.to_json(),
+            AnyCheck::Bytecode(c) => c.to_json(),
         }
     }
 
@@ -34,6 +40,9 @@ impl AnyCheck {
             _ if check::Kind::from_name(kind).is_some() => Check::from_json(v).map(AnyCheck::Prog),
             "tape" => crate::tape::TapeCheck::from_json(v).map(AnyCheck::Tape),
             "svec" => crate::svec::SvecCheck::from_json(v).map(AnyCheck::Svec),
+            "cli" => crate::cli::CliCheck::from_json(v).map(AnyCheck::Cli),
+            "compile" => crate::compile::CompileCheck::from_json(v).map(AnyCheck::Compile),
+            "bytecode" => crate::bcheck::BcCheck::from_json(v).map(AnyCheck::Bytecode),
             _ => None,
         }
     }
@@ -43,6 +52,9 @@ impl AnyCheck {
             AnyCheck::Prog(c) => &c.prop,
             AnyCheck::Tape(c) => &c.prop,
             AnyCheck::Svec(c) => &c.prop,
+            AnyCheck::Cli(c) => &c.prop,
+            AnyCheck::Compile(c) => &c.prop,
+            AnyCheck::Bytecode(c) => &c.prop,
         }
     }
 
@@ -52,6 +64,9 @@ impl AnyCheck {
             AnyCheck::Prog(c) => format!("{}/{}", c.kind.name(), c.case.backend.name()),
             AnyCheck::Tape(c) => format!("tape/i{}", c.width),
             AnyCheck::Svec(c) => format!("svec/N{}/{}", c.n, if c.tracked { "tracked" } else { "u32" }),
+            AnyCheck::Cli(_) => "cli".to_string(),
+            AnyCheck::Compile(c) => format!("compile/i{}/O{}", c.width, c.level.min(4)),
+            AnyCheck::Bytecode(c) => format!("bytecode/regs{}", c.regs),
         }
     }
 
@@ -61,6 +76,9 @@ impl AnyCheck {
             AnyCheck::Prog(c) => crate::minimize::shrink_prog(c).into_iter().map(AnyCheck::Prog).collect(),
             AnyCheck::Tape(c) => c.shrink_candidates().into_iter().map(AnyCheck::Tape).collect(),
             AnyCheck::Svec(c) => c.shrink_candidates().into_iter().map(AnyCheck::Svec).collect(),
+            AnyCheck::Cli(c) => c.shrink_candidates().into_iter().map(AnyCheck::Cli).collect(),
+            AnyCheck::Compile(c) => c.shrink_candidates().into_iter().map(AnyCheck::Compile).collect(),
+            AnyCheck::Bytecode(c) => c.shrink_candidates().into_iter().map(AnyCheck::Bytecode).collect(),
         }
     }
 
@@ -69,6 +87,9 @@ impl AnyCheck {
             AnyCheck::Prog(c) => c.case.program.chars().count(),
             AnyCheck::Tape(c) => c.ops.len(),
             AnyCheck::Svec(c) => c.ops.len(),
+            AnyCheck::Cli(c) => c.primary_len(),
+            AnyCheck::Compile(c) => c.program.chars().count(),
+            AnyCheck::Bytecode(c) => c.program.chars().count(),
         }
     }
 
@@ -107,6 +128,9 @@ impl AnyCheck {
                 n.ops.drain(start..end);
                 Some(AnyCheck::Svec(n))
             }
+            AnyCheck::Cli(c) => c.remove_primary(start, len).map(AnyCheck::Cli),
+            AnyCheck::Compile(c) => c.remove_primary(start, len).map(AnyCheck::Compile),
+            AnyCheck::Bytecode(c) => c.remove_primary(start, len).map(AnyCheck::Bytecode),
         }
     }
 
@@ -116,6 +140,9 @@ impl AnyCheck {
             AnyCheck::Prog(c) => crate::minimize::prog_size(c),
             AnyCheck::Tape(c) => c.size(),
             AnyCheck::Svec(c) => c.size(),
+            AnyCheck::Cli(c) => c.size(),
+            AnyCheck::Compile(c) => c.size(),
+            AnyCheck::Bytecode(c) => c.size(),
         }
     }
 }
@@ -126,6 +153,18 @@ pub fn make(prop: &str, rng: &mut Rng, env: &GenEnv) -> Checks {
             let n = 8;
             let items = (0..n).map(|_| AnyCheck::Tape(crate::tape::generate(rng, prop))).collect();
             Checks { items, family: "tape-histories".into() }
+        }
+        "C11" => {
+            let items = crate::bcheck::generate(rng, prop, &env.corpus).into_iter().map(AnyCheck::Bytecode).collect();
+            Checks { items, family: "bytecode-contract".into() }
+        }
+        "C13" => {
+            let items = (0..4).map(|_| AnyCheck::Compile(crate::compile::generate(rng, prop, &env.corpus))).collect();
+            Checks { items, family: "compile-histories".into() }
+        }
+        "C16" => {
+            let items = (0..8).map(|_| AnyCheck::Cli(crate::cli::generate(rng, prop, &env.corpus))).collect();
+            Checks { items, family: "cli-scenarios".into() }
         }
         "C18" => {
             let items = (0..16).map(|_| AnyCheck::Svec(crate::svec::generate(rng, prop))).collect();
@@ -143,5 +182,8 @@ pub fn evaluate(c: &AnyCheck) -> Verdict {
         AnyCheck::Prog(c) => check::evaluate(c),
         AnyCheck::Tape(c) => crate::tape::evaluate(c),
         AnyCheck::Svec(c) => crate::svec::evaluate(c),
+        AnyCheck::Cli(c) => crate::cli::evaluate(c),
+        AnyCheck::Compile(c) => crate::compile::evaluate(c),
+        AnyCheck::Bytecode(c) => crate::bcheck::evaluate(c),
     }
 }
